@@ -177,6 +177,20 @@ def run_shard(spec, ctx):
                 if not do_write(ctx, g, sh, s, data, 'history'):
                     break
                 ctx.feature('history_steps')
+                if rng.random() < 0.2:
+                    # what a user observes after raw writes is the saved cart: render .p8 text and read it independently
+                    import io
+                    from pico8.game.formatter.p8 import P8Formatter
+                    from .. import refcodec as rc
+                    buf = io.BytesIO()
+                    P8Formatter.to_file(g, buf)
+                    ref = rc.read_p8(buf.getvalue())
+                    ctx.monitor('saved_carts_compared')
+                    bad = [n for n, _ in REGIONS if ref[n] != (sh.region(n) if n != 'music' else rc.music_mask(sh.region(n)))]
+                    if bad:
+                        ctx.violation('after the writes so far the saved .p8 shows other bytes in %s than were written' % bad,
+                                      {'start': s, 'data': data, 'prior': bytes(sh.mem), 'tag': 'saved-p8'})
+                        break
                 if rng.random() < 0.15:
                     # the library allows a section object to be replaced (build does it with setattr); later writes must
                     # land in the cart's current sections
@@ -210,6 +224,8 @@ def gates(m, tier):
     for k in (1, 2, 3, 4, 5):
         if f.get('regions_spanned_%d' % k, 0) < 3:
             missed.append('no write spanning %d regions' % k)
+    if mon.get('saved_carts_compared', 0) < 20:
+        missed.append('saved carts compared: %d' % mon.get('saved_carts_compared', 0))
     if f.get('section_object_replaced', 0) < 20:
         missed.append('section objects replaced only %d times' % f.get('section_object_replaced', 0))
     if mon.get('region_comparisons', 0) < 1000:
